@@ -249,6 +249,11 @@ def choose_faults(ctx: C.Ctx, seeds: List[S.SeedDoc], cal) -> List[Tuple[S.SeedD
                     chosen.append(rng.choice(fs))
             npay = min(len(payload), ctx.n(300, 0))
             chosen += rng.sample(payload, npay)
+            # every truncation point of every RunLength-coded payload (a cut right after a length byte is
+            # a single position per run)
+            for f in payload:
+                if f["how"] == "truncate" and f["target"] == "obj" and _is_runlength(s.objs.get(f["obj"])):
+                    chosen.append(f)
             chosen += rng.sample(trunc, min(len(trunc), ctx.n(200, 0)))
         for f in chosen:
             if thorough:
@@ -259,6 +264,15 @@ def choose_faults(ctx: C.Ctx, seeds: List[S.SeedDoc], cal) -> List[Tuple[S.SeedD
             plan.append((s, f, ents))
     rng.shuffle(plan)
     return plan
+
+
+def _is_runlength(o: Any) -> bool:
+    d = getattr(o, "d", None)
+    if not isinstance(d, dict):
+        return False
+    flt = d.get("Filter", d.get("F"))
+    names = flt if isinstance(flt, list) else [flt]
+    return bool(names) and names[0] in ("RunLengthDecode", "RL")
 
 
 def make_job(s: S.SeedDoc, f: Dict[str, Any], ents: List[str], cal) -> Optional[Dict[str, Any]]:
